@@ -106,11 +106,14 @@ static void eb_mul_fix_kbltz(eb_t r, const eb_t *t, const bn_t k) {
 	l = sizeof(tnaf);
 	bn_rec_tnaf(tnaf, &l, k, u, RLC_FB_BITS, RLC_DEPTH);
 
-	n = tnaf[l - 1];
+	/* The recoding of a multiple of the order can be empty. */
+	n = (l > 0 ? tnaf[l - 1] : 0);
 	if (n > 0) {
 		eb_copy(r, t[n / 2]);
-	} else {
+	} else if (n < 0) {
 		eb_neg(r, t[-n / 2]);
+	} else {
+		eb_set_infty(r);
 	}
 
 	for (i = l - 2; i >= 0; i--) {
